@@ -20,7 +20,7 @@ var commonAssume = []string{
 }
 
 func allChecks() []*CheckDef {
-	return []*CheckDef{checkC02(), checkC03(), checkC12(), checkC13()}
+	return []*CheckDef{checkC02(), checkC03(), checkC12(), checkC13(), checkC14()}
 }
 
 func checkC03() *CheckDef {
@@ -175,6 +175,40 @@ func checkC13() *CheckDef {
 				"work_bound":                  "calls into the underlying reader <= 64+32*N; interpreter steps <= 300000+30000*N",
 				"outside":                     "constant factors; GC; generated-code deserializers (C13 generated part not built yet); frame reader (see h13f)",
 			}
+		},
+		Assume: commonAssume,
+	}
+}
+
+const wirePkg = "go.uber.org/thriftrw/wire"
+
+var pkgWire = PkgDef{Path: wirePkg, Dir: "wire", Name: "wire", Files: []string{"wire/zz_h14.go"}}
+
+func checkC14() *CheckDef {
+	params := func(tier string) map[string]int {
+		if tier == "thorough" {
+			return map[string]int{"depth": 2, "budget": 4, "budget2": 3, "k": 2, "bin": 2}
+		}
+		return map[string]int{"depth": 2, "budget": 3, "budget2": 2, "k": 2, "bin": 1}
+	}
+	return &CheckDef{
+		ID:   "C14",
+		Pkgs: []PkgDef{pkgWire},
+		Harnesses: func(tier string) []*sym.HarnessConfig {
+			p := params(tier)
+			return []*sym.HarnessConfig{
+				{Name: "h14", Pkg: wirePkg, Params: map[string]int{"depth": p["depth"], "budget": p["budget"], "budget2": 0, "k": p["k"], "bin": p["bin"]}, Budget: 3000000, AllMapOrders: true},
+				{Name: "h14", Pkg: wirePkg, Params: map[string]int{"depth": p["depth"], "budget": p["budget2"], "budget2": p["budget2"], "k": p["k"], "bin": p["bin"]}, Budget: 3000000, AllMapOrders: true},
+				{Name: "h14r", Pkg: wirePkg, Params: map[string]int{"depth": p["depth"], "budget": p["budget"] + 1, "k": p["k"], "bin": p["bin"]}, Budget: 3000000, AllMapOrders: true},
+				{Name: "h14t", Pkg: wirePkg, Params: map[string]int{"depth": p["depth"], "budget": p["budget"] - 1, "k": p["k"], "bin": p["bin"]}, Budget: 3000000, AllMapOrders: true},
+				{Name: "h14_witness", Pkg: wirePkg, Params: map[string]int{"depth": 1, "budget": 2, "budget2": 1, "k": 1, "bin": 1}, ExpectViolation: true},
+			}
+		},
+		Bounds: func(tier string) map[string]interface{} {
+			p := params(tier)
+			return map[string]interface{}{"wire_values": p, "transitivity_triples": "same-shape triples with independent leaves, one node fewer than pairs", "second_value": "same shape with independent leaves (first value <= budget nodes), and independent shapes (both <= budget2 nodes)",
+				"map_iteration": "all orders", "preconditions": "no NaN; sets and map keys duplicate-free; struct ids distinct (as the property states)",
+				"outside": "generated Equals methods (generated-code pipeline not built yet); larger containers"}
 		},
 		Assume: commonAssume,
 	}
